@@ -275,6 +275,8 @@ def bounded_roundtrips(seed, quick):
                                 # ASCII: keep out of the recorded known-finding region (negative value with a 3-digit exponent) - that region has its own witness
                                 bad = (M < 0) & ((abs(M) >= 9e99) | ((abs(M) < 1e-99) & (M != 0)))
                                 M[bad] = -M[bad]
+                                # the largest double rounded to fewer than 17 digits may round above the range (1.797693135E+308 reads as inf): stay at 1.7e308
+                                M[abs(M) > 1.7e308] = 1.7e308
                             if cplx:
                                 M = M + 1j * rng.randn(r, c) * (rng.rand(r, c) < 0.4)
                             if rng.rand() < 0.2 and c > 0:
@@ -290,7 +292,7 @@ def bounded_roundtrips(seed, quick):
                         with warnings.catch_warnings():
                             warnings.simplefilter("ignore")
                             try:
-                                pr = _roundtrip(op4, tmp, names, mats, None, binary, endian, sparse, 16 if rep % 2 == 0 else 9, (False, True, None))
+                                pr = _roundtrip(op4, tmp, names, mats, None, binary, endian, sparse, (16, 9, 5, 12, 20, 7)[it % 6], (False, True, None))
                             except Exception as ex:
                                 tb = traceback.extract_tb(ex.__traceback__)
                                 pr = ["exception %r at %s:%s" % (ex, tb[-1].filename, tb[-1].lineno)]
@@ -346,6 +348,24 @@ def bounded_roundtrips(seed, quick):
                                 pr = ["exception %r at %s:%s" % (ex, tb[-1].filename, tb[-1].lineno)]
                         if pr:
                             return ev, dict(what="op4 write -> read is not the identity (%s matrix given as %s)" % (label, vname), binary=binary, endian=endian, sparse=sparse, form_given=explicit, problems=pr[:4])
+        # ASCII: every number of digits x layout with long runs of non-zeros (several full lines per string, a partial last line), real and complex
+        for digits in (1, 3, 5, 9, 12, 16, 17, 20):
+            for sparse_ in ("dense", "bigmat", "nonbigmat"):
+                for cplx in (False, True):
+                    M = rng.randn(11, 3)
+                    M[3, 1] = 0.0; M[0, 2] = 0.0; M[10, 2] = 0.0
+                    if cplx:
+                        M = M + 1j * rng.randn(11, 3)
+                    ev += 1
+                    with warnings.catch_warnings():
+                        warnings.simplefilter("ignore")
+                        try:
+                            pr = _roundtrip(op4, tmp, ["long"], [M], None, False, "=", sparse_, digits, (False, True, None))
+                        except Exception as ex:
+                            tb = traceback.extract_tb(ex.__traceback__)
+                            pr = ["exception %r at %s:%s" % (ex, tb[-1].filename, tb[-1].lineno)]
+                    if pr:
+                        return ev, dict(what="op4 ASCII write -> read is not the identity to the requested digits (digits=%d, long strings)" % digits, binary=False, sparse=sparse_, complex=cplx, digits=digits, problems=pr[:4])
         # repeated names through the list interface
         fn = os.path.join(tmp, "rep.op4")
         A, B = np.arange(6.0).reshape(2, 3), np.eye(2)
@@ -354,6 +374,22 @@ def bounded_roundtrips(seed, quick):
         ev += 1
         if list(gn) != ["a", "b", "a"] or not (np.array_equal(gm[0], A) and np.array_equal(gm[2], 2 * A)):
             return ev, dict(what="repeated names are not all returned in file order by the list interface", names=list(gn))
+        # repeated names and a name list: every matrix with a requested name comes back, in file order, through the list interface; the dict interface keeps the last one
+        seq = [("kaa", A), ("maa", B), ("phi", 3 * A), ("kaa", 5 * A), ("b", 2 * B), ("phi", 7 * A)]
+        for binary in (True, False):
+            for sparse_ in ("dense", "bigmat"):
+                op4.write(fn, [n_ for n_, _ in seq], [m_ for _, m_ in seq], binary=binary, sparse=sparse_)
+                for sel in (["kaa"], ["phi", "kaa"], ["b"], ["maa", "phi"], ["kaa", "maa", "phi", "b"]):
+                    ev += 1
+                    gn, gm, gf, gt = op4.load(fn, namelist=sel, into="list")
+                    want = [(n_, m_) for n_, m_ in seq if n_ in sel]
+                    if list(gn) != [n_ for n_, _ in want] or not all(np.array_equal(g_, w_[1]) for g_, w_ in zip(gm, want)):
+                        return ev, dict(what="list interface with a name list: not every matrix with a requested (repeated) name is returned in file order", namelist=sel, got=list(gn),
+                                        want=[n_ for n_, _ in want], binary=binary)
+                    dd = op4.load(fn, namelist=sel, into="dct")
+                    lastm = {n_: m_ for n_, m_ in want}
+                    if sorted(dd) != sorted(lastm) or not all(np.array_equal(dd[k_][0], lastm[k_]) for k_ in lastm):
+                        return ev, dict(what="dict interface with a name list and repeated names does not hold the last matrix of each requested name", namelist=sel, binary=binary)
         # structures at the limits of the format
         big = []
         v = np.zeros((65535, 1)); v[[0, 7, 65534], 0] = [1.5, -2.5, 3.5]
